@@ -77,6 +77,14 @@ def c06(tier, seed):
 
 PLANS = {"C01": c01, "C02": c02, "C03": c03, "C04": c04, "C05": c05, "C06": c06}
 
+# other families live in lib/plan_<family>.py, each exporting PLANS = {"Cnn": fn(tier, seed) -> exit code}
+import glob as _glob
+import importlib as _importlib
+import os as _os
+for _f in sorted(_glob.glob(_os.path.join(_os.path.dirname(_os.path.abspath(__file__)), "plan_*.py"))):
+    _m = _importlib.import_module(_os.path.basename(_f)[:-3])
+    PLANS.update(getattr(_m, "PLANS", {}))
+
 
 def replay(path):
     """Re-run one recorded schedule against the current tree and re-judge it."""
